@@ -321,6 +321,40 @@ pub fn family_d(_tier: Tier) -> Vec<Family> {
     let (nr, nl, t) = b9.table();
     mk("D/dual-K9", nr, nl, t.clone(), ConnKind::Dual, Some(b9.clone()));
     mk("D/raw-K9", nr, nl, t, ConnKind::Raw, Some(b9));
+    // 10 templates: positions 0-7 tell all ids apart, at positions 8-9 the ids 1 and 2 (right side)
+    // resp. 2 and 3 (left side) share their features, so that they share a row / column of the
+    // dual connector's pre-summed matrix
+    let mut right = vec![];
+    let mut left = vec![];
+    for id in 1..4usize {
+        let mut r: Vec<String> = (0..8).map(|p| format!("R{id}p{p}")).collect();
+        let rs = if id <= 2 { "Rshared".to_string() } else { "Rthree".to_string() };
+        r.push(format!("{rs}8"));
+        r.push(format!("{rs}9"));
+        right.push(r);
+        let mut l: Vec<String> = (0..8).map(|p| format!("L{id}p{p}")).collect();
+        let ls = if id >= 2 { "Lshared".to_string() } else { "Lone".to_string() };
+        l.push(format!("{ls}8"));
+        l.push(format!("{ls}9"));
+        left.push(l);
+    }
+    let mut cost = vec![];
+    let mut n = 0i32;
+    for r in &right {
+        for l in &left {
+            for p in 0..10 {
+                n += 1;
+                if n % 3 != 0 && !cost.iter().any(|c: &(String, String, i32)| c.0 == r[p] && c.1 == l[p]) {
+                    cost.push((r[p].clone(), l[p].clone(), (n * 29) % 53 - 26));
+                }
+            }
+        }
+    }
+    cost.push((String::new(), "Lshared8".into(), 17));
+    cost.push(("Rshared9".into(), String::new(), -9));
+    let bs = Bigram { right, left, cost };
+    let (nr, nl, t) = bs.table();
+    mk("D/dual-K10-shared-rows", nr, nl, t, ConnKind::Dual, Some(bs));
     out
 }
 
